@@ -187,6 +187,33 @@ def importerMatch (pool : Pool) (s : Source) : Except MatchError Nat :=
   | some i => .ok i
   | none => .error .missing
 
+/-! ### request histories on one `Importer` instance -/
+
+/-- The only state an `Importer` carries from one `match` call to the next: the `functools.lru_cache` on `match`
+(statement ↦ returned feed; a raised `MissingError` is not cached).  The `Matcher` is created afresh for every feed
+in every call, so its `_matches` flag never outlives a call. -/
+abbrev Cache := List (Source × Nat)
+
+/-- cache lookup (`lru_cache` keys by the statement) -/
+def Cache.get (c : Cache) (s : Source) : Option Nat := (c.find? (fun p => decide (p.1 = s))).map (·.2)
+
+/-- one `importer.match(s)` call: the answer and the state afterwards -/
+def matchStep (pool : Pool) (c : Cache) (s : Source) : Except MatchError Nat × Cache :=
+  match c.get s with
+  | some i => (.ok i, c)
+  | none =>
+    match importerMatch pool s with
+    | .ok i => (.ok i, (s, i) :: c)
+    | .error e => (.error e, c)
+
+/-- a sequence of `match` calls on one instance, starting from the state `c` -/
+def matchSeqFrom (pool : Pool) : Cache → List Source → List (Except MatchError Nat)
+  | _, [] => []
+  | c, s :: ss => (matchStep pool c s).1 :: matchSeqFrom pool (matchStep pool c s).2 ss
+
+/-- the answers of a freshly constructed `Importer` to a request history -/
+def matchSeq (pool : Pool) (ss : List Source) : List (Except MatchError Nat) := matchSeqFrom pool [] ss
+
 /-! ### wire format -/
 
 open ForML (Sexp)
